@@ -67,8 +67,40 @@ func nonZeroOnTheWay(c *Ctx, v ssa.Value, b *ssa.BasicBlock) bool {
 	return false
 }
 
+// partOf: y is the length of a text or list cut out of the one x is the length of (a trimmed or sliced copy): never longer.
+func partOf(x, y ssa.Value) bool {
+	whole, okx := lenOperand(x)
+	part, oky := lenOperand(y)
+	if !okx || !oky {
+		return false
+	}
+	for i := 0; i < 4; i++ {
+		switch p := part.(type) {
+		case *ssa.Slice:
+			part = p.X
+		case *ssa.Call:
+			switch calleeFullName(p) {
+			case "strings.TrimLeft", "strings.TrimRight", "strings.Trim", "strings.TrimSpace", "strings.TrimPrefix", "strings.TrimSuffix", "strings.TrimFunc", "strings.TrimLeftFunc", "strings.TrimRightFunc",
+				"bytes.TrimLeft", "bytes.TrimRight", "bytes.Trim", "bytes.TrimSpace", "bytes.TrimPrefix", "bytes.TrimSuffix":
+				part = p.Call.Args[0]
+			default:
+				return false
+			}
+		default:
+			return false
+		}
+		if part == whole || sameLoad(part, whole) || sameFieldLoad(part, whole) {
+			return true
+		}
+	}
+	return false
+}
+
 // comparedOnTheWay: a test on every way to b established x >= y.
 func comparedOnTheWay(x, y ssa.Value, b *ssa.BasicBlock) bool {
+	if partOf(x, y) {
+		return true
+	}
 	same := func(p, q ssa.Value) bool {
 		if p == q || sameLoad(p, q) || sameFieldLoad(p, q) {
 			return true
@@ -302,4 +334,80 @@ func okOr(ok bool, yes, no string) string {
 		return yes
 	}
 	return no
+}
+
+// ---------------------------------------------------------------------------
+
+func init() {
+	register(&Rule{Name: "LINT-RUNEIDX", Floor: 0, Run: ruleRuneIdx, Fixture: "fixture.byteOffsetIntoRunes",
+		Doc: "a position obtained by ranging over a text (a byte offset) is not used as an index into the text's []rune form (a count of characters): the two agree for ASCII only, and behind the first multi-byte character the index runs past the end of the shorter list"})
+}
+
+func ruleRuneIdx(c *Ctx, r *Rep) {
+	isRunes := func(v ssa.Value) bool {
+		for i := 0; i < 3; i++ {
+			switch x := v.(type) {
+			case *ssa.Slice:
+				v = x.X
+				continue
+			case *ssa.Convert:
+				sl, ok := x.Type().Underlying().(*types.Slice)
+				if !ok {
+					return false
+				}
+				b, ok := sl.Elem().Underlying().(*types.Basic)
+				return ok && b.Kind() == types.Int32 && isString(x.X.Type())
+			}
+			break
+		}
+		return false
+	}
+	// byteOffset: v is the position a range over a string yields, possibly moved by a constant
+	var byteOffset func(v ssa.Value, d int) bool
+	byteOffset = func(v ssa.Value, d int) bool {
+		if d > 4 {
+			return false
+		}
+		switch x := v.(type) {
+		case *ssa.Extract:
+			if nx, ok := x.Tuple.(*ssa.Next); ok && nx.IsString && x.Index == 1 {
+				return true
+			}
+		case *ssa.BinOp:
+			if x.Op == token.ADD || x.Op == token.SUB {
+				if _, isK := x.Y.(*ssa.Const); isK {
+					return byteOffset(x.X, d+1)
+				}
+			}
+		case *ssa.Phi:
+			for _, e := range x.Edges {
+				if byteOffset(e, d+1) {
+					return true
+				}
+			}
+		}
+		return false
+	}
+	for _, fn := range c.Funcs {
+		n := 0
+		for _, b := range fn.Blocks {
+			for _, ins := range b.Instrs {
+				var x, idx ssa.Value
+				switch i := ins.(type) {
+				case *ssa.IndexAddr:
+					x, idx = i.X, i.Index
+				case *ssa.Index:
+					x, idx = i.X, i.Index
+				default:
+					continue
+				}
+				if !isRunes(x) {
+					continue
+				}
+				n++
+				bad := byteOffset(idx, 0)
+				r.Check(!bad, sprintf("rune-index|%s#%d", c.FuncKey(fn), n), c.Pos(ins.Pos()), "the []rune form of a text is indexed by a count of characters, not by a byte offset from ranging over the text", okOr(!bad, "not a byte offset", "the index is the byte offset of a range over a string"))
+			}
+		}
+	}
 }
